@@ -18,6 +18,12 @@ import numpy as np
 VERIF_DIR = os.path.dirname(os.path.dirname(os.path.abspath(__file__)))
 
 
+def deep():
+    """Thorough tier explores deeper bounds: longer histories and larger worlds (the tier is part of the
+    run's identity: it is recorded in the replay's triple via its generated content)."""
+    return os.environ.get("VERIF_TIER") == "thorough"
+
+
 # ---------------------------------------------------------------- seeds ----
 def run_seed(prop, batch_seed, index):
     h = hashlib.sha256(f"{prop}:{batch_seed}:{index}".encode()).hexdigest()
